@@ -681,6 +681,8 @@ class IPAddr6 (_AddrBase):
                            % (addr,))
       return (r0,128-r1)
     addr = addr.split('/', 2)
+    if len(addr) > 2:
+      raise RuntimeError("Bad CIDR format: more than one '/'")
     if len(addr) == 1:
       return check(IPAddr6(addr[0]), 0)
     try:
@@ -866,6 +868,8 @@ def parse_cidr (addr, infer=True, allow_host=False):
                          % (addr,))
     return (r0,32-r1)
   addr = addr.split('/', 2)
+  if len(addr) > 2:
+    raise RuntimeError("Bad CIDR format: more than one '/'")
   if len(addr) == 1:
     if infer is False:
       return check(IPAddr(addr[0]), 0)
